@@ -28,6 +28,9 @@ def run(chk: Check) -> None:
     block_stepper(chk)
     ownership(chk)
     child_value_handed_up(chk, 'DOM-value-propagation')
+    # "with that value as the result": what a step function returns reaches the work chain unchanged through the coroutine wrapper of the run step (shared with C13)
+    from .c13 import step_wrapper_returns_result_unchanged
+    step_wrapper_returns_result_unchanged(chk, 'DOM-return-propagation')
 
 
 def do_step(chk: Check) -> None:
@@ -395,6 +398,26 @@ def ownership(chk: Check) -> None:
         rets = [r for r in ast.walk(f.node) if isinstance(r, ast.Return)]
         chk.ob('OWN-user-calls', f, len(rets) == 1 and norm(rets[0].value) == f'{cls}({f.params[0]})', f'{fn}(p) builds a {cls} with that predicate', kind='constructor')
     mod = prog.module('workchains')
+    # the outline is a class-level object shared by every run of the work chain class: once built (constructors, elif_ / else_ / __call__ while the spec is being
+    # defined) nothing may change it -- a description method that pops the else-branch off the live list removes it for every later run
+    from .common import MUTATORS
+    builders = ('__init__', 'elif_', 'else_', '__call__')
+    n_ro = 0
+    for cname in ('_Instruction', '_FunctionCall', '_Block', '_Conditional', '_If', '_While', '_Return'):
+        k = prog.cls(f'workchains.{cname}')
+        for mname, f in k.emethods.items():
+            if mname in builders:
+                continue
+            n_ro += 1
+            bad = None
+            for x in ast.walk(f.node):
+                if isinstance(x, ast.Call) and isinstance(x.func, ast.Attribute) and x.func.attr in MUTATORS and norm(x.func.value).startswith('self.'):
+                    bad = bad or x
+                elif isinstance(x, (ast.Subscript, ast.Attribute)) and isinstance(x.ctx, (ast.Store, ast.Del)) and norm(x.value).startswith('self'):
+                    bad = bad or x
+            chk.ob('OWN-user-calls', f, bad is None, f'{cname}.{mname} leaves the instruction as it was built' + ('' if bad is None else
+                   f': {norm(bad)} changes the outline object, which all runs of the class share -- the branch / instruction is gone for every later run'), node=bad, kind='outline-read-only')
+    chk.floor('OWN-user-calls:outline-read-only', n_ro, 10)
     chk.ob('OWN-user-calls', 'workchains.return_', 'return_' in mod.constants and norm(mod.constants['return_']) == '_Return()', 'return_ is a _Return instruction without code', kind='return-singleton')
     el = prog.func('workchains._If.else_')
     ok = any(isinstance(n, ast.Lambda) and norm(n.body) == 'True' for n in ast.walk(el.node)) and any(norm(c.func) == 'self._ifs.append' for c in calls_in_func(el))
